@@ -1055,7 +1055,8 @@ def signature(spec, tag):
     """Call site and input class of a failing member."""
     f = spec["family"]
     if f == "bp":
-        if "objective" in tag or "best-f" in tag or tag == "bin-count":
+        if tag in ("best-f-vs-fresh-objective", "best-f-vs-model",
+                   "objective-outside-bounds", "bin-count"):
             return f"bp|{spec['obj']}|{tag}"
         if tag.startswith(("infeasible", "y-not-decode")):
             return f"bp|ibf{spec['enc']}|{tag}"
@@ -1088,9 +1089,36 @@ def test_c12_replay():
 '''
 
 
+def from_package(exc):
+    """Was the exception raised by (or below) code of the repository?"""
+    import traceback
+    root = os.path.realpath(repo_root())
+    return any(os.path.realpath(fr.filename).startswith(root + os.sep)
+               for fr in traceback.extract_tb(exc.__traceback__))
+
+
+def guarded_check(family):
+    """An exception out of the package while checking is a finding."""
+    fn = CHECKS[family]
+
+    def call(spec, root):
+        try:
+            return fn(spec, root)
+        except HarnessError:
+            raise
+        except Exception as e:  # noqa
+            if not from_package(e):
+                raise
+            return [("package-raised-" + type(e).__name__,
+                     f"{type(e).__name__}: {e}"[:300])], \
+                {"runs": 2, "o": {"status": "raised", "f": None,
+                                  "fes": None, "li": None, "err": str(e)}}
+    return call
+
+
 def check_member(spec, root):
     """Check one member; a failing member is re-executed before reporting."""
-    fn = CHECKS[spec["family"]]
+    fn = guarded_check(spec["family"])
     probs, info = fn(spec, root)
     res = {"runs": info["runs"], "viol": [], "flaky": None}
     o = info["o"]
@@ -1196,8 +1224,18 @@ def bp_run_experiment_job(a):
                     setups=[mk(t["E"].rls), mk(t["E"].fea)], n_runs=2,
                     perform_warmup=False, perform_pre_warmup=False)
             got = []
-            with quiet():
-                from_logs(d, got.append)
+            try:
+                with quiet():
+                    from_logs(d, got.append)
+            except Exception as e:  # noqa
+                if not from_package(e):
+                    raise
+                out["viol"].append((
+                    "bp|from_logs-raised", f"from_logs on the directory "
+                    f"written by run_experiment ({obj}/ibf{enc}, budget 17, "
+                    f"instances {names}): {type(e).__name__}: {e}"[:400],
+                    {"family": "bp_run_experiment", "names": names}))
+                continue
             out["dir_checks"] += 1
             out["dir_results"] += len(got)
             out["runs"] += len(got)
@@ -1214,10 +1252,19 @@ def bp_run_experiment_job(a):
                         "inst": er.instance, "seed": er.rand_seed,
                         "budget": 17}
                 lf = log_path(d, er.algorithm, er.instance, er.rand_seed)
-                with quiet():
-                    pk = Packing.from_log(lf)
-                rows = np.array(pk, dtype=np.int64)
                 probs = []
+                try:
+                    with quiet():
+                        pk = Packing.from_log(lf)
+                except Exception as e:  # noqa
+                    if not from_package(e):
+                        raise
+                    out["viol"].append((
+                        "bp|from_log-raised", f"Packing.from_log({lf}): "
+                        f"{type(e).__name__}: {e}"[:400],
+                        {"family": "bp_run_experiment", "names": names}))
+                    continue
+                rows = np.array(pk, dtype=np.int64)
                 code = P.feasible_intervals(
                     rows, np.asarray(inst).tolist(), inst.bin_width,
                     inst.bin_height, int(pk.n_bins))
